@@ -509,17 +509,31 @@ Proof.
 Qed.
 
 Lemma reinit_ok_sound f : reinit_ok f = true ->
-  (forall a, In a (f_hist f) -> In a (f_init_w f)) /\
+  (forall a, In a (f_state f ++ f_hist f) -> In a (f_init_w f)) /\
   (forall a, In a (f_init_r f) -> ~ In a (run_writes f) \/ In a (f_state f ++ f_hist f)).
 Proof.
-  unfold reinit_ok, subset. intros H. apply andb_true_iff in H as [H H3]. apply andb_true_iff in H as [_ H2].
-  rewrite forallb_forall in H2, H3. split.
-  - intros a Ha. apply mem_In. exact (H2 a Ha).
+  unfold reinit_ok, subset. intros H. apply andb_true_iff in H as [H H3]. apply andb_true_iff in H as [H1 H2].
+  rewrite forallb_forall in H1, H2, H3. split.
+  - intros a Ha. apply mem_In. apply in_app_or in Ha as [Ha|Ha]; [exact (H1 a Ha) | exact (H2 a Ha)].
   - intros a Ha. specialize (H3 a Ha).
     apply orb_true_iff in H3 as [H3|H3]; [apply orb_true_iff in H3 as [H3|H3]|].
     + left. apply mem_false. destruct (mem a (run_writes f)); [discriminate | reflexivity].
     + right. apply in_or_app. left. apply mem_In. exact H3.
     + right. apply in_or_app. right. apply mem_In. exact H3.
+Qed.
+
+(* reinitialize touches nothing that initialize does not re-bind: in particular every constructor argument that
+   initialize leaves alone keeps its value *)
+Lemma reinit_frame_from_facts (V : Type) (f : facts) (initS : store V -> store V) :
+  reinit_ok f = true ->
+  (forall s a, ~ In a (f_init_w f) -> initS s a = s a) ->
+  forall none s a, ~ In a (f_init_w f) ->
+    initS (clear_store none (f_state f ++ f_hist f) s) a = s a.
+Proof.
+  intros Hok Hframe none s a Ha. destruct (reinit_ok_sound f Hok) as [Hx _].
+  rewrite Hframe by exact Ha. unfold clear_store.
+  destruct (mem a (f_state f ++ f_hist f)) eqn:E; [|reflexivity].
+  apply mem_In in E. elim Ha. apply Hx. exact E.
 Qed.
 
 Lemma reinit_from_facts (V Rnd : Type) (f : facts) (initS : store V -> store V) :
@@ -546,3 +560,56 @@ Lemma alias_refuted :
     let chain := map (tr_point ref) (legacy_chain unit nat unit unit tr_step tt 0%nat (units n)) in
     chain = [10; 11; 12]%Z /\ rec = [11; 12; 12]%Z /\ hd 0%Z rec <> tr_point ref 0.
 Proof. exists [10; 11; 12]%Z, 2%nat. vm_compute. repeat split; discriminate. Qed.
+
+(* a state key that initialize never re-binds (NUTS.max_depth) is left at the cleared value by reinitialize *)
+Import String.StringSyntax.
+Local Open Scope string_scope.
+Definition nuts_like : facts :=
+  mkFacts ["current_point"; "max_depth"] ["_samples"] ["current_point"; "max_depth"] ["current_point"] [] [] [] [] [] []
+          ["initial_point"] ["current_point"; "_samples"] [].
+Definition nuts_like_init (s : store (option Z)) : store (option Z) :=
+  fun a => if mem a ["current_point"; "_samples"] then Some 0%Z else s a.
+Definition nuts_like_store : store (option Z) := fun a => if String.eqb a "max_depth" then Some 5%Z else None.
+
+Lemma reinit_refuted :
+  reinit_ok nuts_like = false /\
+  (forall s a, ~ In a (f_init_w nuts_like) -> nuts_like_init s a = s a) /\
+  ~ In "max_depth" (f_init_w nuts_like) /\
+  nuts_like_store "max_depth" = Some 5%Z /\
+  nuts_like_init (clear_store None (f_state nuts_like ++ f_hist nuts_like) nuts_like_store) "max_depth" = None.
+Proof.
+  split; [vm_compute; reflexivity|]. split.
+  - intros s a Ha. unfold nuts_like_init. destruct (mem a ["current_point"; "_samples"]) eqn:E; [|reflexivity].
+    apply mem_In in E. elim Ha. exact E.
+  - split; [|split; vm_compute; reflexivity]. cbn. intros [H|[H|[]]]; discriminate.
+Qed.
+
+(* a randomised initialisation result that step reads but get_state does not save (RegularizedLinearRTO._stepsize):
+   the transition function is within the extracted footprint, yet a fresh sampler of the same configuration holds a
+   different value, and the resumed chain differs from the uninterrupted one *)
+Definition rto_like : facts :=
+  mkFacts ["current_point"] ["_samples"] ["current_point"; "_stepsize"] ["current_point"] [] [] [] [] [] []
+          ["initial_point"] ["current_point"; "_samples"; "_stepsize"] ["_stepsize"].
+Definition rto_like_step (s : store Z) (r : Z) : store Z :=
+  fun a => if String.eqb a "current_point" then (s "current_point" + r * s "_stepsize")%Z else s a.
+
+Lemma hidden_random_refuted :
+  footprint_ok [] rto_like = false /\ footprint_ok ["_stepsize"] rto_like = true /\
+  (forall s r a, ~ In a (run_writes rto_like) -> rto_like_step s r a = s a) /\
+  (forall s1 s2 r, agree (sem_reads rto_like) s1 s2 -> agree (f_state rto_like) (rto_like_step s1 r) (rto_like_step s2 r)) /\
+  exists orig fresh : store Z,
+    (forall b, b <> "_stepsize" -> fresh b = orig b) /\
+    runS Z Z rto_like_step (load_store (f_state rto_like) (runS Z Z rto_like_step orig [1%Z]) fresh) [1%Z] "current_point"
+    <> runS Z Z rto_like_step (runS Z Z rto_like_step orig [1%Z]) [1%Z] "current_point".
+Proof.
+  split; [vm_compute; reflexivity|]. split; [vm_compute; reflexivity|]. split; [|split].
+  - intros s r a Ha. unfold rto_like_step. destruct (String.eqb a "current_point") eqn:E; [|reflexivity].
+    apply String.eqb_eq in E. subst a. elim Ha. cbn. left. reflexivity.
+  - intros s1 s2 r H a Ha. cbn in Ha. destruct Ha as [<-|[]]. unfold rto_like_step. cbn.
+    rewrite (H "current_point"), (H "_stepsize"); [reflexivity | cbn; auto | cbn; auto].
+  - exists (fun a => if String.eqb a "_stepsize" then 1%Z else 0%Z),
+           (fun a => if String.eqb a "_stepsize" then 2%Z else 0%Z).
+    split.
+    + intros b Hb. destruct (String.eqb b "_stepsize") eqn:E; [apply String.eqb_eq in E; contradiction | reflexivity].
+    + vm_compute. discriminate.
+Qed.
